@@ -5,6 +5,7 @@
 //! (field, operation); the case body loops over the alphabet (unary) / alphabet^2 (binary).
 
 mod prime;
+mod probe;
 mod tower;
 mod towers;
 mod types;
@@ -12,6 +13,10 @@ mod types;
 use vcore::{Ctx, Level};
 
 fn main() {
+    let args: Vec<String> = std::env::args().collect();
+    if args.len() == 4 && args[1] == "--probe" {
+        probe::child_main(&args[2], &args[3]);
+    }
     let mut cx = Ctx::from_args("C10", Level::Exploration);
     cx.set_rule(
         "complete enumeration, per exported field type, of: every unary operation over the boundary \
@@ -33,6 +38,12 @@ fn main() {
     cx.assume("seeded representatives come from VERIF_SEED; the enumeration over the alphabet is complete");
     cx.assume("blst shifts (shl/shr) are only exercised with count >= 1: the underlying blst loop is do-while, so count = 0 is outside its domain");
     cx.assume("release build without debug assertions: k256's debug-only magnitude/normalisation assertions (documented in curves/src/k256/base_field.rs) are not armed");
+
+    // by-reference Sum / Product implementations are probed out of process first
+    let probes = prime::probe_cases();
+    cx.run_cases("iter-ref-probes", &probes, |c| c());
+    cx.require(cx.counter_value("probe_machinery_failures") == 0, "child-process probes could be run");
+    cx.require(cx.class_count("iter-ref-probes:sum-ref:probe-ok") > 0, "at least one by-reference Sum probe terminates (the probe mechanism works)");
 
     types::run_prime_fields(&mut cx);
     towers::run_towers(&mut cx);
